@@ -732,13 +732,29 @@ def oracle_cs(ck, case, o, inp):
 
 
 # ------------------------------------------------------------------ Codespeed through whole executor sessions
+CS_URL = {'shared': 'http://127.0.0.1:9/result/add/json/', 'Good': 'http://127.0.0.1:9/good/result/add/json/',
+          'Bad': 'http://127.0.0.1:9/bad/result/add/json/'}
+
+
+def cs_endpoint_of(case, key):
+    """the Codespeed endpoint a run reports to (None: its experiment has no Codespeed reporting)"""
+    mode = case.get('endpoints', 'shared')
+    if mode == 'shared':
+        return CS_URL['shared']
+    if key[0] == 'Good':
+        return CS_URL['Good']
+    return CS_URL['Bad'] if mode == 'two' else None
+
+
 def gen_cs_exec_case(rng, directed=None):
     """a session with a good and a bad executor: from its `trigger`-th start on, the bad executor's
     binary answers 127, so its runs fail (hit 127 themselves, or are abandoned because a sibling did)"""
     c = {'benchmarks': rng.randint(1, 3), 'invocations': rng.choice([1, 2, 2, 3]),
          'scheduler': rng.choice(['batch', 'round-robin', 'round-robin', 'random']),
          'incremental': rng.random() < 0.6, 'gap': rng.choice([0, 5, 20, 40]),
-         'first_ok': rng.random() < 0.8, 'its': rng.randint(1, 3), 'seed': rng.randint(0, 10 ** 6)}
+         'first_ok': rng.random() < 0.8, 'its': rng.randint(1, 3), 'seed': rng.randint(0, 10 ** 6),
+         # who is told: one reporter for all runs, one Codespeed endpoint per experiment, or only one experiment reports
+         'endpoints': rng.choice(['shared', 'shared', 'two', 'two', 'one'])}
     c['trigger'] = rng.choice([0, 0, c['benchmarks'], c['benchmarks'], rng.randint(0, c['benchmarks'] * c['invocations'])])
     if directed:
         c.update(directed)
@@ -751,14 +767,24 @@ def run_cs_exec_case(ck, case):
     wd = os.path.join(ck.scratch, 'cse%d' % ck._c18_cse)
     os.makedirs(wd)
     names = NAMES[:case['benchmarks']]
+    mode = case.get('endpoints', 'shared')
     cfg = {'default_experiment': 'T', 'default_data_file': 't.data', 'runs': {'invocations': case['invocations']},
-           'reporting': {'codespeed': {'url': 'http://127.0.0.1:9/result/add/json/', 'project': 'P'}},
+           'reporting': {'codespeed': {'url': CS_URL['shared'], 'project': 'P'}},
            'benchmark_suites': {'S': {'gauge_adapter': 'RebenchLog', 'command': 'h %(benchmark)s', 'benchmarks': names}},
            # fixed paths (nothing is ever started): the run identities, hence the order in which the run set is
            # iterated, do not depend on the scratch directory, so a replay sees the same schedule
            'executors': {'Good': {'path': '/opt/verif-c18', 'executable': 'good-exe'},
                          'Bad': {'path': '/opt/verif-c18', 'executable': 'bad-exe'}},
            'experiments': {'T': {'suites': ['S'], 'executions': ['Good', 'Bad']}}}
+    if mode != 'shared':
+        # runs that do not share their reporters: each experiment has its own `reporting` section
+        del cfg['reporting']
+        cfg['default_experiment'] = 'all'
+        cfg['experiments'] = {
+            'TG': {'suites': ['S'], 'executions': ['Good'],
+                   'reporting': {'codespeed': {'url': CS_URL['Good'], 'project': 'PG'}}},
+            'TB': dict({'suites': ['S'], 'executions': ['Bad']},
+                       **({'reporting': {'codespeed': {'url': CS_URL['Bad'], 'project': 'PB'}}} if mode == 'two' else {}))}
     conf = drive.write_config(wd, cfg)
     vrng = _random.Random(case['seed'])
     produced = {}          # (executor, benchmark) -> samples handed to ReBench so far
@@ -782,7 +808,7 @@ def run_cs_exec_case(ck, case):
         def spy(rep, run_id, statistics, cmdline):
             w.script = [case['first_ok'], True]
             key = (run_id.benchmark.suite.executor.name, run_id.benchmark.name)
-            order.append((key, int(w.clock), list(produced.get(key, []))))
+            order.append((key, int(w.clock), list(produced.get(key, [])), rep._cfg.url))
             return orig_completed(rep, run_id, statistics, cmdline)
         REP.CodespeedReporter.run_completed = spy
         orig_job = REP.CodespeedReporter.report_job_completed
@@ -814,84 +840,109 @@ def check_cs_exec_sessions(ck, cases):
         # a run of the bad executor that got all its invocations done before the binary went away is a normal run;
         # every other one hits 127 itself or is abandoned because a sibling did: a failed run
         failed = dict((k, k[0] == 'Bad' and len(produced.get(k, [])) < full) for k in keys)
-        # group attempts into requests: a failed first attempt is followed by its retry with the same body
-        reqs = []
-        i = 0
-        while i < len(attempts):
-            a = attempts[i]
-            n = 1
-            if not a['ok'] and i + 1 < len(attempts) and attempts[i + 1]['data'] == a['data']:
-                n = 2
-            body = a['data'].decode('utf-8') if isinstance(a['data'], bytes) else a['data']
-            entries = json.loads(urllib.parse.parse_qs(body)['json'][0])
-            reqs.append({'attempts': n, 'entries': [dict(canon_cs_entry_keyed(e, idx)) for e in entries]})
-            i += n
-        results.append((case, r, reqs, order, produced, keys, idx, failed))
-        if case['incremental']:
-            ops.append({'op': 'c18.cs_incr', 't0': t0, 'events':
-                        [{'k': 'completed', 'i': idx[k], 'now': now, 'ok': case['first_ok'],
-                          'run': {'ident': [], 'samples': [lib.frac(v) for v in smp], 'failed': failed[k]}}
-                         for (k, now, smp) in order] + [{'k': 'job', 'ok': case['first_ok']}]})
-        else:
-            ops.append({'op': 'c18.cs_final', 'ok': case['first_ok'],
-                        'runs': [{'ident': [], 'samples': [lib.frac(v) for v in produced.get(k, [])],
-                                  'failed': failed[k]} for k in keys]})
+        endpoints = sorted(set(u for u in (cs_endpoint_of(case, k) for k in keys) if u))
+        per = {}
+        for u in endpoints:
+            att = [a for a in attempts if a['url'] == u]
+            # group attempts into requests: a failed first attempt is followed by its retry with the same body
+            reqs = []
+            i = 0
+            while i < len(att):
+                a = att[i]
+                n = 1
+                if not a['ok'] and i + 1 < len(att) and att[i + 1]['data'] == a['data']:
+                    n = 2
+                body = a['data'].decode('utf-8') if isinstance(a['data'], bytes) else a['data']
+                entries = json.loads(urllib.parse.parse_qs(body)['json'][0])
+                reqs.append({'attempts': n, 'entries': [dict(canon_cs_entry_keyed(e, idx)) for e in entries]})
+                i += n
+            order_u = [(k, now, smp) for (k, now, smp, url) in order if url == u]
+            per[u] = {'reqs': reqs, 'order': order_u, 'op': len(ops)}
+            if case['incremental']:
+                ops.append({'op': 'c18.cs_incr', 't0': t0, 'events':
+                            [{'k': 'completed', 'i': idx[k], 'now': now, 'ok': case['first_ok'],
+                              'run': {'ident': [], 'samples': [lib.frac(v) for v in smp], 'failed': failed[k]}}
+                             for (k, now, smp) in order_u] + [{'k': 'job', 'ok': case['first_ok']}]})
+            else:
+                ops.append({'op': 'c18.cs_final', 'ok': case['first_ok'],
+                            'attached': [cs_endpoint_of(case, k) == u for k in keys],
+                            'runs': [{'ident': [], 'samples': [lib.frac(v) for v in produced.get(k, [])],
+                                      'failed': failed[k]} for k in keys]})
+        foreign = [a['url'] for a in attempts if a['url'] not in endpoints]
+        results.append((case, r, per, produced, keys, idx, failed, foreign))
     answers = ck.model(ops)
-    for (case, r, reqs, order, produced, keys, idx, failed), ans in zip(results, answers):
+    for (case, r, per, produced, keys, idx, failed, foreign) in results:
         inp = {'cs_exec_case': case}
+        mode = 'incremental' if case['incremental'] else 'final'
         ck.impl_traces += 1
-        ck.count('codespeed-executor-session:%s,%s' % (case['scheduler'], 'incremental' if case['incremental'] else 'final'))
+        ck.count('codespeed-executor-session:%s,%s' % (case['scheduler'], mode))
+        ck.count('codespeed-executor-session: endpoints=%s' % case.get('endpoints', 'shared'))
         aborted_with_data = [k for k in keys if failed[k] and produced.get(k)]
         ck.count('codespeed-executor-session: failed runs=%d' % sum(1 for k in keys if failed[k]))
         if aborted_with_data:
             ck.count('codespeed-executor-session: failed run that has samples')
         ck.case(nontrivial_key=('cse', json.dumps(case, sort_keys=True)),
-                sample={'case': case, 'requests': len(reqs)})
+                sample={'case': case, 'requests': dict((u, len(p['reqs'])) for u, p in per.items())})
         if r.crash:
             ck.oracle_fail('codespeed_no_traceback', inp, {'exception': r.crash[0], 'message': r.crash[1], 'frames': r.crash[2]},
                            signature={'clause': 'codespeed_no_traceback', 'exception': r.crash[0], 'level': 'executor-session'})
             continue
-        sent = [e for q in reqs for e in q['entries']]
-        # ---- oracle: -1 for every failed run in whatever mode; the statistics of the samples otherwise; each run once
-        want_runs = sorted(idx[k] for k in (keys if not case['incremental'] else [k for (k, _n, _s) in order]))
-        if sorted(e['run'] for e in sent) != want_runs:
-            ck.oracle_fail('codespeed_one_entry_per_run', inp, {'entries_for_runs': sorted(e['run'] for e in sent),
-                                                                'reported_runs': want_runs, 'runs': [list(k) for k in keys]},
-                           signature={'clause': 'codespeed_one_entry_per_run', 'level': 'executor-session'})
-        for e in sent:
-            k = keys[e['run']]
-            smp = [Fraction(v) for v in produced.get(k, [])]
-            if failed[k]:
-                if e['value'] != -1:
-                    ck.oracle_fail('codespeed_failed_is_minus_one', inp,
-                                   {'run': list(k), 'sent': {'result_value': e['value'], 'min': e['min'], 'max': e['max']},
-                                    'samples_of_the_failed_run': [float(x) for x in smp][:8],
-                                    'mode': 'incremental' if case['incremental'] else 'final'},
-                                   signature={'clause': 'codespeed_failed_is_minus_one', 'level': 'executor-session',
-                                              'mode': 'incremental' if case['incremental'] else 'final'})
-            elif smp:
-                mean = sum(smp) / len(smp)
-                var = sum((x - mean) ** 2 for x in smp) / len(smp)
-                if e['value'] is None or e['value'] == -1 or not close(e['value'], mean, max(abs(mean), 1)) or \
-                        Fraction(e['min']) != min(smp) or Fraction(e['max']) != max(smp) or \
-                        abs(Fraction(e['std']) ** 2 - var) > Fraction(1, 10 ** 6) * max(1, var):
-                    ck.oracle_fail('codespeed_values', inp, {'run': list(k), 'sent': e, 'samples': [float(x) for x in smp][:12]},
-                                   signature={'clause': 'codespeed_values', 'level': 'executor-session'})
-        # ---- model
-        m_reqs = ans.get('reqs') or []
-        ok = len(m_reqs) == len(reqs)
-        if ok:
-            for a, b in zip(reqs, m_reqs):
-                aa = sorted(a['entries'], key=lambda e: e['run'])
-                bb = sorted(b['entries'], key=lambda e: e['run'])
-                if a['attempts'] != b['attempts'] or len(aa) != len(bb) or \
-                        (case['incremental'] and [e['run'] for e in a['entries']] != [e['run'] for e in b['entries']]) or \
-                        not all(cs_entry_matches(x, y) for x, y in zip(aa, bb)):
-                    ok = False
-                    break
-        if not ok:
-            ck.disagree('c18.codespeed: CodespeedReporter driven by the real Executor vs RB.Report.csFinal/csRun', inp,
-                        {'reqs': reqs}, {'reqs': m_reqs}, TH_CS)
+        if foreign:
+            ck.oracle_fail('codespeed_endpoint_gets_its_runs', inp, {'requests_to_unconfigured_urls': foreign[:5]},
+                           signature={'clause': 'codespeed_endpoint_gets_its_runs', 'what': 'unknown url'})
+        for u, p in sorted(per.items()):
+            reqs, order_u = p['reqs'], p['order']
+            ans = answers[p['op']]
+            sent = [e for q in reqs for e in q['entries']]
+            mine = [k for k in keys if cs_endpoint_of(case, k) == u]
+            # ---- oracle: every configured endpoint receives exactly its runs, each once (in incremental mode: those
+            # that were reported as completed) ...
+            want_runs = sorted(idx[k] for k in (mine if not case['incremental'] else [k for (k, _n, _s) in order_u]))
+            got_runs = sorted(e['run'] for e in sent)
+            if got_runs != want_runs:
+                not_mine = sorted(set(got_runs) - set(idx[k] for k in mine))
+                clause = 'codespeed_endpoint_gets_its_runs' if (not_mine or not sent) else 'codespeed_one_entry_per_run'
+                ck.oracle_fail(clause, inp, {'endpoint': u, 'entries_for_runs': [list(keys[i]) if 0 <= i < len(keys) else i
+                                                                                 for i in got_runs],
+                                             'its_runs': [list(k) for k in mine], 'mode': mode},
+                               signature={'clause': clause, 'level': 'executor-session', 'mode': mode,
+                                          'foreign_runs': bool(not_mine), 'never_notified': not sent})
+            # ... with -1 for every failed run in whatever mode, and the statistics of the samples otherwise
+            for e in sent:
+                if not 0 <= e['run'] < len(keys):
+                    continue
+                k = keys[e['run']]
+                smp = [Fraction(v) for v in produced.get(k, [])]
+                if failed[k]:
+                    if e['value'] != -1:
+                        ck.oracle_fail('codespeed_failed_is_minus_one', inp,
+                                       {'run': list(k), 'sent': {'result_value': e['value'], 'min': e['min'], 'max': e['max']},
+                                        'samples_of_the_failed_run': [float(x) for x in smp][:8], 'mode': mode},
+                                       signature={'clause': 'codespeed_failed_is_minus_one', 'level': 'executor-session',
+                                                  'mode': mode})
+                elif smp:
+                    mean = sum(smp) / len(smp)
+                    var = sum((x - mean) ** 2 for x in smp) / len(smp)
+                    if e['value'] is None or e['value'] == -1 or not close(e['value'], mean, max(abs(mean), 1)) or \
+                            Fraction(e['min']) != min(smp) or Fraction(e['max']) != max(smp) or \
+                            abs(Fraction(e['std']) ** 2 - var) > Fraction(1, 10 ** 6) * max(1, var):
+                        ck.oracle_fail('codespeed_values', inp, {'run': list(k), 'sent': e, 'samples': [float(x) for x in smp][:12]},
+                                       signature={'clause': 'codespeed_values', 'level': 'executor-session'})
+            # ---- model
+            m_reqs = ans.get('reqs') or []
+            ok = len(m_reqs) == len(reqs)
+            if ok:
+                for a, b in zip(reqs, m_reqs):
+                    aa = sorted(a['entries'], key=lambda e: e['run'])
+                    bb = sorted(b['entries'], key=lambda e: e['run'])
+                    if a['attempts'] != b['attempts'] or len(aa) != len(bb) or \
+                            (case['incremental'] and [e['run'] for e in a['entries']] != [e['run'] for e in b['entries']]) or \
+                            not all(cs_entry_matches(x, y) for x, y in zip(aa, bb)):
+                        ok = False
+                        break
+            if not ok:
+                ck.disagree('c18.codespeed: CodespeedReporter driven by the real Executor vs RB.Report.csFinalOf/csRun', inp,
+                            {'endpoint': u, 'reqs': reqs}, {'reqs': m_reqs}, TH_CS)
 
 
 def canon_cs_entry_keyed(e, idx):
@@ -901,6 +952,11 @@ def canon_cs_entry_keyed(e, idx):
 
 
 CS_EXEC_DIRECTED = [
+    # runs that do not share their reporters
+    {'endpoints': 'two', 'incremental': False, 'scheduler': 'batch', 'invocations': 1, 'benchmarks': 2, 'trigger': 99},
+    {'endpoints': 'two', 'incremental': True, 'scheduler': 'round-robin', 'invocations': 2, 'benchmarks': 2, 'trigger': 2, 'gap': 0},
+    {'endpoints': 'one', 'incremental': False, 'scheduler': 'batch', 'invocations': 1, 'benchmarks': 3, 'trigger': 99},
+    {'endpoints': 'one', 'incremental': True, 'scheduler': 'random', 'invocations': 2, 'benchmarks': 2, 'trigger': 99, 'gap': 40},
     # the binary disappears after every run had its first invocation: the abandoned runs have samples
     {'scheduler': 'round-robin', 'invocations': 2, 'benchmarks': 3, 'trigger': 3, 'incremental': True, 'gap': 0},
     {'scheduler': 'round-robin', 'invocations': 2, 'benchmarks': 3, 'trigger': 3, 'incremental': False, 'gap': 0},
@@ -914,20 +970,41 @@ CS_EXEC_DIRECTED = [
 
 
 # ------------------------------------------------------------------ whole sessions: stdout
-def check_sessions(ck, n_scen):
+def check_sessions(ck, n_scen, seeds=None):
     """run + resume through the real CLI entry (in-process, scripted processes): the table
     printed by the second session must be the one the model computes from the data file"""
     from humanfriendly.tables import format_pretty_table
-    rng = ck.rng
+    import random as _random
     for idx in range(n_scen):
-        wd = os.path.join(ck.scratch, 'sess%d' % idx)
+        # everything of a scenario derives from its own seed, so that a replay file can name it
+        scen_seed = seeds[idx] if seeds else ck.rng.randint(0, 2 ** 31)
+        rng = _random.Random(scen_seed)
+        ck._c18_sess = getattr(ck, '_c18_sess', 0) + 1
+        wd = os.path.join(ck.scratch, 'sess%d' % ck._c18_sess)
         os.makedirs(wd)
         n_b = rng.randint(1, 7)
         inv = rng.randint(1, 3)
         warm = rng.choice([0, 0, 1])
         cores = rng.choice([[1], [1, 2]])
-        suite = {'gauge_adapter': 'RebenchLog', 'command': 'h %(benchmark)s %(cores)s',
-                 'benchmarks': NAMES[:n_b], 'cores': cores}
+        # identifying values that are poison for str.format / %-formatting of the report: they must be shown verbatim
+        special = rng.random() < 0.6
+        sizes = rng.choice([None, ['{n}'], ['{0}', 'big'], ['}{']]) if special else None
+        varvals = rng.choice([None, ['${V}'], ['{{v}}']]) if special else None
+        extras = {}
+        if special:
+            pool_x = ['--out=${OUT_DIR}/a', '{0}', 'a{b}c', '{{d}}', '{', '}} x', '$X {ind}', '-D{key}={val}']
+            same = rng.random() < 0.5
+            x0 = rng.choice(pool_x)
+            for b in NAMES[:n_b]:
+                if rng.random() < 0.8:
+                    extras[b] = x0 if same else rng.choice(pool_x)
+        command = 'h %(benchmark)s %(cores)s' + (' %(input)s' if sizes else '') + (' %(variable)s' if varvals else '')
+        suite = {'gauge_adapter': 'RebenchLog', 'command': command,
+                 'benchmarks': [({b: {'extra_args': extras[b]}} if b in extras else b) for b in NAMES[:n_b]], 'cores': cores}
+        if sizes:
+            suite['input_sizes'] = sizes
+        if varvals:
+            suite['variable_values'] = varvals
         if warm:
             suite['warmup'] = warm
         cfg = {'default_experiment': 'T', 'default_data_file': 't.data', 'runs': {'invocations': inv},
@@ -942,7 +1019,8 @@ def check_sessions(ck, n_scen):
 
         def script(rec):
             args = rec['args'].split()
-            b, c = args[-2], args[-1]
+            b = args[2]
+            c = tuple(args[3:3 + 1 + (1 if sizes else 0) + (1 if varvals else 0)])     # cores [size] [variable]
             k = state['count'].get((state['session'], b, c), 0)
             state['count'][(state['session'], b, c)] = k + 1
             if b in fail_bench or (state['session'] == 1 and b in late_bench and k >= 1):
@@ -958,15 +1036,27 @@ def check_sessions(ck, n_scen):
         runs = []
         for b in NAMES[:n_b]:
             for c in cores:
-                smp = [v for vals in produced.get((b, str(c)), []) for v in vals[warm:]]
-                runs.append({'ident': [b, 'E', 'S', '', str(c), '', '', '', ''], 'samples': smp, 'b': b, 'c': c})
-        inp = {'session': {'benchmarks': n_b, 'invocations': inv, 'warmup': warm, 'cores': cores,
-                           'failing': sorted(fail_bench), 'resumed': sorted(late_bench), 'produced': dict(('%s/%s' % k, v) for k, v in produced.items())}}
+                for sz in (sizes or [None]):
+                    for vv in (varvals or [None]):
+                        key = (str(c),) + ((sz,) if sizes else ()) + ((vv,) if varvals else ())
+                        smp = [v for vals in produced.get((b, key), []) for v in vals[warm:]]
+                        runs.append({'ident': [b, 'E', 'S', extras.get(b, ''), str(c), sz or '', vv or '', '', ''],
+                                     'samples': smp, 'b': b, 'c': c})
+        if special:
+            ck.count('cli-session with braces / $ in identifying values')
+        inp = {'session': {'scenario_seed': scen_seed, 'benchmarks': n_b, 'invocations': inv, 'warmup': warm, 'cores': cores,
+                           'extra_args': extras, 'input_sizes': sizes, 'variable_values': varvals,
+                           'failing': sorted(fail_bench), 'resumed': sorted(late_bench),
+                           'produced': dict(('%s/%s' % (k[0], '/'.join(k[1])), v) for k, v in produced.items())}}
         ck.count('cli-session-pairs')
         ck.case(nontrivial_key=('sess', idx, n_b, inv))
         if r1.crash or r2.crash:
+            crash = r1.crash or r2.crash
             ck.disagree('c18.session: session crashed', inp, {'s1': r1.status(), 's2': r2.status(),
-                                                              'crash': r1.crash or r2.crash}, None, TH_TABLE)
+                                                              'crash': crash}, None, TH_TABLE)
+            ck.oracle_fail('report_no_traceback', inp, {'exception': crash[0], 'message': crash[1], 'frames': crash[2],
+                                                        'summary_printed': False},
+                           signature={'clause': 'report_no_traceback', 'exception': crash[0], 'level': 'session'})
             continue
         # the order in which the set is iterated is not observable here: try the model on the file order and accept a
         # table equal up to the order of rows with equal sort keys (none here: keys are distinct per run apart from name)
@@ -1007,6 +1097,13 @@ def check_sessions(ck, n_scen):
                 want.append((r['b'], str(len(smp)), str(int(round(m)))))
             else:
                 want.append((r['b'], '0', 'Failed'))
+        # every identifying value is shown verbatim (in the run's row or in the summary of uniform values)
+        report_text = out[out.rfind('Result Summary of Uniform Values'):] if 'Result Summary of Uniform Values' in out \
+            else '\n'.join([header] + body)
+        mangled = sorted(set(v for r in runs for v in r['ident'] if v and v not in report_text))
+        if mangled:
+            ck.oracle_fail('cell_verbatim', inp, {'values_not_shown_verbatim': mangled, 'report': report_text[-1200:]},
+                           signature={'clause': 'cell_verbatim', 'level': 'session'})
         if not tie and sorted(printed) != sorted(want):
             ck.oracle_fail('every_run_once', inp, {'printed (benchmark, samples, mean)': sorted(printed)[:16],
                                                    'expected': sorted(want)[:16]},
@@ -1113,6 +1210,8 @@ def replay(ck, data, pool=None):
         check_cs_exec_sessions(ck, [inp['cs_exec_case']])
     elif 'mean' in inp:
         ck.notes.append('rounding disagreement: re-run the tier with the same seed')
+    elif 'session' in inp and 'scenario_seed' in inp['session']:
+        check_sessions(ck, 1, seeds=[inp['session']['scenario_seed']])
     else:
         ck.notes.append('session replays are re-generated from the seed: VERIF_SEED=%s' % data.get('seed'))
         check_sessions(ck, 12)
